@@ -31,6 +31,12 @@ def run(ctx):
         # add an unrelated module with fresh names (a generic class and functions using type variables included)
         extra = gen_pkg.gen_package(random.Random(rng.random()), 900 + i, style="plaintext", nmods=1, reexports=False, subpackage=False)
         em = extra.modules[0]
+        # the unrelated module also has a generic class over the type-variable name the package uses
+        shared = p.modules[0].typevars[0]
+        em.typevars = list(em.typevars) + ([shared] if shared not in em.typevars else [])
+        em.classes.append(gen_pkg.Cls(f"ZzGeneric{i}", bases=[f"Generic[{shared}]"], tparams=[shared],
+                                      methods=[gen_pkg.Func(f"zz_m{i}", [gen_pkg.Param("a", "pos", gen_pkg.Ann("typevar", name=shared))],
+                                                            ret=gen_pkg.Ann("int"))]))
         q = copy.deepcopy(p)
         em2 = copy.deepcopy(em)
         em2.path = f"{p.name}/zz_unrelated_{i}.py"
